@@ -193,6 +193,8 @@ pub struct Outcome {
     pub end_ms: u64,
     /// sequence number at which each gate was first opened (0: never)
     pub gate_open_seq: Vec<u64>,
+    /// the server's read side has actually observed the peer's FIN (a read returned 0)
+    pub eof_delivered: bool,
 }
 
 fn result_text(r: &ConnResult) -> Result<(), String> {
@@ -333,6 +335,7 @@ pub fn run_scenario(sc: &Scenario) -> Outcome {
             body_bytes_delivered: wd.body_bytes_delivered,
             end_ms: now_ms,
             gate_open_seq: wd.gates.iter().map(|g| g.first_open_seq).collect(),
+            eof_delivered: s.eof_delivered,
         }
     })
 }
